@@ -65,6 +65,25 @@ func (l *c19LockedBuf) waitFor(s string, d time.Duration) bool {
 	}
 }
 
+// c19DisableDump calls DisableDumpAll but gives up after 3 s: stopping a dumper whose queue is full and
+// whose writer goroutine does not exist blocks forever (Dumper.Stop sends on the queue).
+func c19DisableDump(c *Client) bool {
+	if c == nil || c.Dump == nil {
+		return true
+	}
+	done := make(chan struct{})
+	go func() {
+		defer close(done)
+		c.DisableDumpAll()
+	}()
+	select {
+	case <-done:
+		return true
+	case <-time.After(3 * time.Second):
+		return false
+	}
+}
+
 type c19Dialer struct {
 	n atomic.Int32
 }
@@ -139,11 +158,13 @@ func TestVerif_C19_life(t *testing.T) {
 	defer proxy.Close()
 	fresh := func() *Client { c := C(); c.SetLogger(nil); c.SetTimeout(15 * time.Second); return c }
 	seq := 0
+	nFail := 0
 	obs := func(id string, ok bool, detail string) {
 		s.Observe(id, ok, "", true, id, detail)
 		s.Count("check")
 		if !ok {
 			s.Count("failed")
+			nFail++
 		}
 	}
 	for _, pr := range c19Protos() {
@@ -174,12 +195,17 @@ func TestVerif_C19_life(t *testing.T) {
 				done := func(cs ...*Client) {
 					for _, c := range cs {
 						c.Transport.CloseIdleConnections()
-						if c.Dump != nil {
-							c.DisableDumpAll()
+						if !c19DisableDump(c) {
+							obs(base+"cleanup/DisableDumpAll-returns", false, "DisableDumpAll did not return within 3 s (the dumper's queue is full and nothing reads it)")
 						}
 					}
 				}
 				feature := func(name string, f func(id string)) {
+					if nFail >= 10 {
+						// enough failing inputs to report; every further failing scenario costs seconds of waiting
+						s.Count("skipped-after-10-failures")
+						return
+					}
 					s.Begin(base+name, base+name)
 					ptxt, panicked := verifh.Safely(func() { f(base + name) })
 					if panicked {
@@ -244,7 +270,10 @@ func TestVerif_C19_life(t *testing.T) {
 							if who == "original-disables" {
 								off, on, bon = c, cc, b1
 							}
-							off.DisableDumpAll()
+							if !c19DisableDump(off) {
+								obs(id+"/DisableDumpAll-returns", false, "DisableDumpAll did not return within 3 s (the dumper's queue is full and nothing reads it)")
+								return
+							}
 							allOK, detail := true, ""
 							for i := 0; i < 8; i++ {
 								m := mk()
